@@ -352,7 +352,7 @@ impl RandSeq {
         let bad = rng.chance(1, 10);
         let batch = rng.chance(15, 100);
         if batch {
-            let len = [0usize, 1, 1, 2, 2, 3, 3, 4, 5, 6, 8][rng.below(11)];
+            let len = [0usize, 1, 1, 2, 2, 3, 3, 4, 5, 6, 8, 15, 16, 17, 20][rng.below(15)];
             let bad_at = if bad && len > 0 { Some(rng.below(len)) } else { None };
             let mut pairs = Vec::with_capacity(len);
             for i in 0..len {
@@ -1006,6 +1006,9 @@ fn mutate(rng: &mut Rng, ops: &[Op], kind: usize) -> Option<Vec<Op>> {
                     }
                 }
                 Op::LB(p) | Op::CB(p) => {
+                    if p.is_empty() {
+                        return None; // the empty batch has no endpoint to change
+                    }
                     let j = rng.below(p.len());
                     if first {
                         p[j].0 = change(rng, p[j].0);
